@@ -639,3 +639,50 @@ def switches(fn):
     for bi in sorted(fn.live_blocks()):
         if fn.blocks[bi]['term']['t'] == 'switch':
             yield bi
+
+
+# ----------------------------------------------------------------------------
+# control-aware slicing
+# ----------------------------------------------------------------------------
+
+def edge_regions(fn):
+    """(switch block, target) -> set of blocks every path to which traverses that edge"""
+    if getattr(fn, '_regions', None) is None:
+        reg = {}
+        live = fn.live_blocks()
+        for sb in switches(fn):
+            for t in set(fn.succ(sb)):
+                without = fn.reachable(0, without_edges=((sb, t),))
+                reg[(sb, t)] = live - without
+        fn._regions = reg
+    return fn._regions
+
+
+def controlling_switches(fn, b):
+    """switch blocks with an outgoing edge that dominates block b"""
+    return sorted({e[0] for e, reg in edge_regions(fn).items() if b in reg})
+
+
+def control_slice(fn, op, stop_at_calls=()):
+    """Backward slice that also follows control dependences: when a value is defined in a block that is only
+    reachable through some edge of a switch, the switch's discriminant is part of the slice.
+    Returns (set of locals, set of call names, set of (local, fields))."""
+    locals_, calls, fields = set(), set(), set()
+    work = [op]
+    seen_sw = set()
+    rounds = 0
+    while work and rounds < 100000:
+        rounds += 1
+        o = work.pop()
+        sl = fn.slice(o, stop_at_calls=stop_at_calls)
+        new = sl.locals - locals_
+        locals_ |= sl.locals
+        calls |= sl.calls
+        fields |= sl.fields
+        for l in new:
+            for kind, bi, si, x in fn.defs().get(l, ()):
+                for sb in controlling_switches(fn, bi):
+                    if sb not in seen_sw:
+                        seen_sw.add(sb)
+                        work.append(fn.blocks[sb]['term']['discr'])
+    return locals_, calls, fields
